@@ -144,7 +144,18 @@ pub fn random_text(rng: &mut gen::R) -> String {
     s
 }
 
+/// longest flood (characters); the unoptimised build reads strings a hundred times more slowly
+pub static FLOOD_MAX: std::sync::atomic::AtomicUsize = std::sync::atomic::AtomicUsize::new(1_000_000);
+
 pub fn mutated_san(rng: &mut gen::R) -> String {
+    // floods: a plausible move followed (or preceded) by a very long run of annotation / check marks or of one
+    // character (work or recursion proportional to the length of the input must not exhaust anything)
+    if rng.gen_bool(0.04) {
+        let stem = ["e4", "Nf3", "Qxf7", "O-O", "e8=Q", "Raxd1", "bxa8=N"].choose(rng).unwrap().to_string();
+        let unit = ["+", "#", "!", "?", "+!", "#?!", "x", "=", "-O", "1", "a"].choose(rng).unwrap();
+        let k = [50usize, 1_000, 6_000, 20_000, 60_000, 200_000, 1_000_000][rng.gen_range(0..7)].min(FLOOD_MAX.load(std::sync::atomic::Ordering::Relaxed)) / unit.len();
+        return if rng.gen_bool(0.85) { format!("{}{}", stem, unit.repeat(k)) } else { format!("{}{}", unit.repeat(k), stem) };
+    }
     let base = ["e4", "Nf3", "exd5", "O-O", "O-O-O", "e8=Q", "e8Q", "Raxd1+", "Qh4#", "N5xf3", "bxa8=N+", "Kd2", "R1a3", "Qa1b2", "dxe6"].choose(rng).unwrap().to_string();
     let mut chars: Vec<String> = base.chars().map(|c| c.to_string()).collect();
     for _ in 0..rng.gen_range(0..4) {
@@ -191,7 +202,10 @@ fn library(ctx: &Ctx, rep: &mut Report) {
     let budget = ctx.budget_s;
     let start = ctx.start;
     let (cur2, done2) = (current.clone(), done.clone());
-    let profile = if cfg!(debug_assertions) { "checked" } else { "plain" };
+    let profile = if cfg!(debug_assertions) { if ctx.mode == "library-debug" { "debug" } else { "checked" } } else { "plain" };
+    if ctx.mode == "library-debug" {
+        FLOOD_MAX.store(60_000, std::sync::atomic::Ordering::Relaxed);
+    }
     let h = std::thread::spawn(move || {
         let mut r = Report::new();
         let mut i = 0u64;
@@ -477,7 +491,7 @@ pub fn run(ctx: &Ctx, rep: &mut Report) {
         return;
     }
     match ctx.mode.as_str() {
-        "library" | "library-plain" | "miri" => {
+        "library" | "library-plain" | "library-debug" | "miri" => {
             if ctx.mode == "miri" {
                 // a small sample of SAN strings under the interpreter (the FEN reader needs the regex engine: too slow)
                 let mut rng = gen::shard_rng(ctx.seed, ctx.shard, 14);
